@@ -125,7 +125,10 @@ class C12(Prop):
             if need > MAXALLOC:
                 ops.append([kind, n])
                 return
-            if sim.total() + 4 * need + 4096 > self.BUDGET and need > sim.remaining():
+            trial = Sim(512)
+            trial.chunks, trial.c, trial.off = list(sim.chunks), sim.c, sim.off
+            trial.alloc(need)
+            if trial.total() > self.BUDGET:     # (a chunk is twice its predecessor: pre-empted adds make them grow fast)
                 return
             if kind == "copy":
                 hexs = "".join("%02x" % rng.randrange(256) for _ in range(n)) or "-"
@@ -195,8 +198,12 @@ class C12(Prop):
                     tags.add("preempt")
         if carry_case:
             # outside the no-carry regime (known finding): >= 4 GiB of requests in flight in one chunk epoch
-            ops += [["reset"], ["preempt", TWO32 - rng.choice([MAXALLOC, 100, 1, 5000])],
-                    ["alloc", rng.choice([MAXALLOC, 200, 1, 6000])], ["alloc", 5], ["size"], ["alloc", 600], ["chunks"]]
+            # (never a real 1 GiB chunk: either the add of 1 GiB itself carries, or the requests are small)
+            if rng.random() < 0.4:
+                pre, req = TWO32 - MAXALLOC, MAXALLOC
+            else:
+                pre, req = TWO32 - rng.choice([100, 1, 5000]), rng.choice([200, 1, 6000])
+            ops += [["reset"], ["preempt", pre], ["alloc", req], ["alloc", 5], ["size"], ["alloc", 600], ["chunks"]]
             tags.add("carry")
         ops += [["verify"], ["chunks"], ["allocated"], ["size"]]
         return Case("a%d%s" % (j, nonce), "alloc", [init], ops, tags)
